@@ -158,6 +158,8 @@ pub struct Gen<'a> {
     fn_names: Vec<Vec<String>>,
     /// label inside function k usable as a shared tail target
     tail_labels: Vec<Option<String>>,
+    /// helper functions `setslot<M>` (store M through the pointer in a0) that the program calls
+    setslots: Vec<i64>,
 }
 
 pub fn generate(r: &mut Rng, cfg: &GenCfg) -> Vec<String> {
@@ -169,6 +171,7 @@ pub fn generate(r: &mut Rng, cfg: &GenCfg) -> Vec<String> {
         data_labels: Vec::new(),
         fn_names: Vec::new(),
         tail_labels: Vec::new(),
+        setslots: Vec::new(),
     };
     g.program();
     g.out
@@ -421,7 +424,43 @@ impl Gen<'_> {
         }
     }
 
+    /// The number of the service sits in a local; before it is reloaded the local is overwritten
+    /// without naming the slot: through a copy of sp, or by a function that was handed its address.
+    fn ecall_number_in_overwritten_local(&mut self, ctx: &mut FnCtx) {
+        let x = *self.r.pick(&[10i64, 93]);
+        let m = *self.r.pick(&[1i64, 11, 34]);
+        let by_callee = (ctx.idx.is_none() || ctx.saves_ra) && self.r.chance(1, 2);
+        self.emit(format!("addi {0}, {0}, -4", self.reg("sp")));
+        self.emit(format!("li {}, {x}", self.reg("t0")));
+        self.emit(format!("sw {}, 0({})", self.reg("t0"), self.reg("sp")));
+        if by_callee {
+            self.emit(format!("mv {}, {}", self.reg("a0"), self.reg("sp")));
+            self.emit(format!("jal setslot{m}"));
+            if !self.setslots.contains(&m) {
+                self.setslots.push(m);
+            }
+        } else {
+            if self.r.chance(1, 2) {
+                self.emit(format!("mv {}, {}", self.reg("t2"), self.reg("sp")));
+            } else {
+                self.emit(format!("addi {}, {}, 0", self.reg("t2"), self.reg("sp")));
+            }
+            self.emit(format!("li {}, {m}", self.reg("t1")));
+            self.emit(format!("sw {}, 0({})", self.reg("t1"), self.reg("t2")));
+        }
+        self.emit(format!("lw {}, 0({})", self.reg("a7"), self.reg("sp")));
+        self.emit(format!("li {}, 7", self.reg("a0")));
+        self.emit("ecall".into());
+        self.emit(format!("addi {0}, {0}, 4", self.reg("sp")));
+        ctx.defined.retain(|r| r.starts_with('s') || *r == "zero");
+        ctx.defined.push("a0");
+    }
+
     fn ecall(&mut self, ctx: &mut FnCtx) {
+        if self.r.chance(1, 12) {
+            self.ecall_number_in_overwritten_local(ctx);
+            return;
+        }
         let n = if self.cfg.discipline == 2 && self.r.chance(1, 4) {
             None
         } else {
@@ -893,6 +932,12 @@ impl Gen<'_> {
             } else {
                 self.ret(&ctx);
             }
+        }
+        for m in self.setslots.clone() {
+            self.emit_label(&format!("setslot{m}"));
+            self.emit(format!("li {}, {m}", self.reg("t1")));
+            self.emit(format!("sw {}, 0({})", self.reg("t1"), self.reg("a0")));
+            self.emit("ret".into());
         }
         if cfg.fn_first && fn_start > main_start && self.out.len() > fn_start {
             // move the block of functions in front of the main code
